@@ -56,6 +56,7 @@ pub fn dispatch(ctx: &Ctx) -> StageOut {
         "c16" => c16::run(ctx),
         "c18" => c18::run(ctx),
         "advgen" => c18::run_advgen(ctx),
+        "rareseeds" => common::rareseeds_stage(ctx),
         "bench" => common::bench_stage(ctx),
         "replay" => replay::run(ctx),
         "c12os" => c12::run_os_calls(ctx),
